@@ -1139,12 +1139,8 @@ func (self *LockManager) ProcessLockData(command *protocol.LockCommand, lock *Lo
 		popCount := int(lockCommandData.GetPopCountValue())
 		if self.currentData != nil && self.currentData.GetData() != nil && popCount > 0 && self.currentData.IsArrayValue() {
 			values := make([][]byte, 0)
-			for i := self.currentData.GetValueOffset(); i+4 < len(self.currentData.data); {
+			for i := self.currentData.GetValueOffset(); i+4 <= len(self.currentData.data); {
 				valueLen := int(uint32(self.currentData.data[i]) | uint32(self.currentData.data[i+1])<<8 | uint32(self.currentData.data[i+2])<<16 | uint32(self.currentData.data[i+3])<<24)
-				if valueLen == 0 {
-					i += 4
-					continue
-				}
 				if i+4+valueLen > len(self.currentData.data) {
 					break
 				}
@@ -1327,12 +1323,8 @@ func (self *LockManager) ProcessRecoverLockData(lock *Lock) {
 			self.currentData = NewLockManagerDataUnsetData(false)
 		} else if recoverData.IsArrayValue() && self.currentData != nil && self.currentData.GetData() != nil && self.currentData.IsArrayValue() {
 			values, recoverValueBytes, recoverIndex := make([][]byte, 0), recoverValue.([]byte), 0
-			for i := self.currentData.GetValueOffset(); i+4 < len(self.currentData.data); {
+			for i := self.currentData.GetValueOffset(); i+4 <= len(self.currentData.data); {
 				valueLen := int(uint32(self.currentData.data[i]) | uint32(self.currentData.data[i+1])<<8 | uint32(self.currentData.data[i+2])<<16 | uint32(self.currentData.data[i+3])<<24)
-				if valueLen == 0 {
-					i += 4
-					continue
-				}
 				if i+4+valueLen > len(self.currentData.data) {
 					break
 				}
@@ -1371,12 +1363,8 @@ func (self *LockManager) ProcessRecoverLockData(lock *Lock) {
 			if recoverValue != nil {
 				values = append(values, recoverValue.([][]byte)...)
 			}
-			for i := self.currentData.GetValueOffset(); i+4 < len(self.currentData.data); {
+			for i := self.currentData.GetValueOffset(); i+4 <= len(self.currentData.data); {
 				valueLen := int(uint32(self.currentData.data[i]) | uint32(self.currentData.data[i+1])<<8 | uint32(self.currentData.data[i+2])<<16 | uint32(self.currentData.data[i+3])<<24)
-				if valueLen == 0 {
-					i += 4
-					continue
-				}
 				if i+4+valueLen > len(self.currentData.data) {
 					break
 				}
